@@ -155,7 +155,10 @@ def c13_analysis(E, names=QUICK, sym=(("EX_A",), ("DM_B",)), objectives=("DM_B:m
         # the same helper replace it for their own purposes and must put it back exactly
         from cobra.util.solver import fix_objective_as_constraint
         try:
-            fix_objective_as_constraint(m, fraction=(0.5 if objective.endswith("max") else 1.5))
+            opt0 = m.slim_optimize(error_value=None)
+            # looser than the optimum by half its magnitude (+1), whatever its sign: the model stays feasible
+            slack = abs(opt0) * 0.5 + 1
+            fix_objective_as_constraint(m, bound=(opt0 - slack if objective.endswith("max") else opt0 + slack))
             left = True
         except Exception:
             return
